@@ -13,13 +13,13 @@ def kwid(kw):
     return ",".join(f"{k}={v}" for k, v in kw.items()) or "plain"
 
 
-def unary(func, f, kws, shapes, gen="f", cls="same", **flags):
+def unary(func, f, kws, shapes, gen="f", cls="same", tag="", **flags):
     for sh in shapes:
         for kw in kws:
             ax = kw.get("axis")
             if isinstance(ax, int) and not (-len(sh) <= ax < len(sh)):
                 continue
-            T(func, f"{kwid(kw)}|{sh}", (lambda a, kw=kw, f=f: f(a, **kw)), {"a": I("X", sh, gen)}, cls=cls, **flags)
+            T(func, f"{tag}{kwid(kw)}|{sh}", (lambda a, kw=kw, f=f: f(a, **kw)), {"a": I("X", sh, gen)}, cls=cls, **flags)
 
 
 def with_out(func, f, kw, sh, outsh, gen="f", cls="same", outgen="zeros", **flags):
